@@ -328,7 +328,8 @@ def job_selection(job):
         level = model.get('lvl', 0) % 4
         forced = model.get('mask_val', 0) % 8 if model.get('mask_some', 0) else None
         mism, req = xcheck.confirm_native(native, v, st, level, forced)
-        w, ms, pens, tried = selection_witness(native, v, level, [st] + [[rnd.randrange(256) for _ in range(total)] for _ in range(20)])
+        ntry2 = 400 if v <= 2 else (100 if v <= 6 else 20)
+        w, ms, pens, tried = selection_witness(native, v, level, [st] + [[rnd.randrange(256) for _ in range(total)] for _ in range(ntry2)])
         confirmed = bool(mism) or w is not None
         what = lab + ' fails'
         if not confirmed and v == max(j_[0] for j_ in [job]) and job[0] >= 4:
